@@ -299,7 +299,88 @@ theorem short_input_ok {α : Type} (n : Nat) (pick : Nat → Nat → α → Nat)
   show outgoing pick s d 0 (sendLoop (hints s) 0 ((inputs s).map some)).1 = outgoing pick s d 0 (inputs s)
   rw [hs s h]
 
+/-- `shardOutcome` refines `shardResult`: a shard returns `Ok l` in the one iff in the other. -/
+theorem shardOutcome_ok_iff {α : Type} (n : Nat) (pick : Nat → Nat → α → Nat)
+    (items : Nat → List (Option α)) (hints : Nat → Nat) (d : Nat) (hd : d < n) (l : List α) :
+    shardOutcome n pick items hints d = .ok l ↔ shardResult n pick items hints d = some l := by
+  unfold shardOutcome shardResult
+  by_cases hany : (List.range n).any (ownFails items hints) = true
+  · have hany' : (List.range n).any (fun s => (sendLoop (hints s) 0 (items s)).2) = true := hany
+    rw [if_pos hany']
+    by_cases ho : ownFails items hints d = true
+    · simp [ho]
+    · simp [ho, hany]
+  · have hany' : ¬ (List.range n).any (fun s => (sendLoop (hints s) 0 (items s)).2) = true := hany
+    have ho : ¬ ownFails items hints d = true := fun h =>
+      hany (List.any_eq_true.mpr ⟨d, List.mem_range.mpr hd, h⟩)
+    rw [if_neg hany', if_neg ho, if_neg hany]
+    constructor
+    · intro h; injection h with h; rw [h]
+    · intro h; injection h with h; rw [h]
+
+/-- **reshard_failure_outcomes**: if the input stream of shard `s` fails (an `Err` item or more items
+than its size hint), then `s` itself returns `Err`; every shard whose own stream is fine never returns
+(it is not told about the failure: the failing shard drops its channels unclosed); hence NO shard
+returns `Ok` — no shard continues with a record set from which records of the failed stream are missing. -/
+theorem reshard_failure_outcomes {α : Type} (n : Nat) (pick : Nat → Nat → α → Nat)
+    (items : Nat → List (Option α)) (hints : Nat → Nat) (s : Nat) (hs : s < n)
+    (hf : ownFails items hints s = true) :
+    shardOutcome n pick items hints s = .err ∧
+    (∀ d, ownFails items hints d = false → shardOutcome n pick items hints d = .hang) ∧
+    (∀ d l, shardOutcome n pick items hints d ≠ .ok l) := by
+  have hany : (List.range n).any (ownFails items hints) = true :=
+    List.any_eq_true.mpr ⟨s, List.mem_range.mpr hs, hf⟩
+  refine ⟨by simp [shardOutcome, hf], ?_, ?_⟩
+  · intro d hd
+    simp [shardOutcome, hd, hany]
+  · intro d l
+    unfold shardOutcome
+    by_cases ho : ownFails items hints d = true
+    · simp [ho]
+    · simp [ho, hany]
+
+/-- conversely a shard that waits forever or fails witnesses a failed input stream -/
+theorem reshard_not_ok_only_on_failure {α : Type} (n : Nat) (pick : Nat → Nat → α → Nat)
+    (items : Nat → List (Option α)) (hints : Nat → Nat) (d : Nat) (hd : d < n)
+    (h : ∀ l, shardOutcome n pick items hints d ≠ .ok l) :
+    ∃ s, s < n ∧ ownFails items hints s = true := by
+  unfold shardOutcome at h
+  by_cases ho : ownFails items hints d = true
+  · exact ⟨d, hd, ho⟩
+  · by_cases hany : (List.range n).any (ownFails items hints) = true
+    · obtain ⟨s, hs, hf⟩ := List.any_eq_true.mp hany
+      exact ⟨s, List.mem_range.mp hs, hf⟩
+    · simp [ho, hany] at h
+
 example : shardResult 2 (fun _ i (_ : Nat) => i % 2) (fun s => [some (10 * s), none]) (fun _ => 5) 0 = none := by decide
 example : shardResult 2 (fun _ i (_ : Nat) => i % 2) (fun s => [some (10 * s), some 7]) (fun _ => 5) 1 = some [7, 7] := by decide
+-- exactly one failing shard (shard 1, `Err` after its first record): it fails, shard 0 waits forever
+example : (List.range 2).map (shardOutcome 2 (fun _ i (_ : Nat) => i % 2) (fun s => if s = 1 then [some 10, none, some 11] else [some 1, some 2]) (fun _ => 5))
+    = [.hang, .err] := by decide
+-- a stream longer than its size hint on shard 0 only
+example : (List.range 3).map (shardOutcome 3 (fun s _ (_ : Nat) => s) (fun s => [some s, some (s + 10)]) (fun s => if s = 0 then 1 else 2))
+    = [.err, .hang, .hang] := by decide
+
+/-- Documentation of the repaired defect (`c19.reshard try 2 1,1,1,1/0,0,0 0,-1 -`): shard 1 holds three
+records, all routed to shard 0, behind a size hint of 2. BEFORE the repair shard 1 failed at its third record
+while shard 0 returned `Ok` with two of the three records routed to it — a record was dropped although the
+input stream failed. With the repaired code shard 0 does not return `Ok`. -/
+theorem shardOutcomeUnfixed_counterexample :
+    let pick : Nat → Nat → Nat → Nat := fun s _ _ => 1 - s
+    let items : Nat → List (Option Nat) := fun s => if s = 0 then [some 0, some 1, some 2, some 3] else [some 1000, some 1001, some 1002]
+    let hints : Nat → Nat := fun s => if s = 0 then 4 else 2
+    (List.range 2).map (shardOutcomeUnfixed 2 pick items hints) = [.ok [1000, 1001], .err] ∧
+    (List.range 2).map (shardOutcome 2 pick items hints) = [.hang, .err] := by decide
+
+/-- without a failing stream the two models agree (the repair changes nothing for error-free inputs) -/
+theorem shardOutcomeUnfixed_eq_of_no_failure {α : Type} (n : Nat) (pick : Nat → Nat → α → Nat)
+    (items : Nat → List (Option α)) (hints : Nat → Nat) (d : Nat)
+    (h : ∀ s, s < n → ownFails items hints s = false) (hd : d < n) :
+    shardOutcomeUnfixed n pick items hints d = shardOutcome n pick items hints d := by
+  have h1 : (List.range n).any (ownFails items hints) = false := by
+    rw [List.any_eq_false]; intro s hs; simp [h s (List.mem_range.mp hs)]
+  have h2 : (List.range n).any (fun s => s != d && ownFails items hints s && !autoClosedUnfixed pick items hints s d) = false := by
+    rw [List.any_eq_false]; intro s hs; simp [h s (List.mem_range.mp hs)]
+  simp [shardOutcomeUnfixed, shardOutcome, h d hd, h1, h2]
 
 end IpaVerif.C19
